@@ -541,6 +541,48 @@ fn run(name: &str, j: &J) -> Result<bool, String> {
             } }
             Ok(true)
         }
+        // C04: the threshold of tau-thresholding is at least what (epsilon, delta, Cu) require: 1 + sigma * z with z the standard normal
+        // quantile of (1 - delta)^(1/Cu), computed here from the upper tail (erfc_inv), accurate where 1 - tail rounds to 1
+        "c04_tau_case" | "c04_tau_search" => {
+            use qrlew::differential_privacy::dp_event::gaussian_tau;
+            let one = |eps: f64, delta: f64, cu: f64| -> Option<String> {
+                let tau = gaussian_tau(eps, delta, cu);
+                let tail = -((-delta).ln_1p() / cu).exp_m1();                 // 1 - (1 - delta)^(1/Cu)
+                let z = std::f64::consts::SQRT_2 * statrs::function::erf::erfc_inv(2. * tail);
+                let sigma = ((2. * (1.25 / delta).ln()).sqrt() / eps * cu.sqrt()).clamp(0., f64::MAX);
+                let required = 1. + sigma * z;
+                if tau.is_nan() || tau < required * (1. - 1e-2) { Some(format!("gaussian_tau({}, {}, {}) = {} is below the threshold 1 + sigma * z = 1 + {} * {} = {} the parameters require", eps, delta, cu, tau, sigma, z, required)) } else { None }
+            };
+            if name == "c04_tau_case" { let r = one(f(j, "epsilon"), f(j, "delta"), f(j, "cu")); if let Some(m) = &r { println!("  {}", m); } return Ok(r.is_none()); }
+            for eps in [0.1, 0.5, 1.0, 3.0] { for delta in [1e-2, 1e-3, 1e-6, 1e-10, 1e-14, 1e-16, 2e-18, 1e-20, 1e-30] { for cu in [1.0, 5.0, 100.0] {
+                if let Some(m) = one(eps, delta, cu) { println!("  {}", m); println!("QX-WITNESS {}", serde_json::json!({"epsilon": eps, "delta": delta, "cu": cu})); return Ok(false); }
+            } } }
+            Ok(true)
+        }
+        // C07: the declared type of COUNT / SUM of a filtered aggregation without GROUP BY contains what it returns when the filter
+        // keeps no row (0), one row, or every row
+        "c07_count_case" | "c07_count_search" => {
+            use qrlew::{hierarchy::Hierarchy, expr::Identifier, sql::parse, data_type::DataTyped};
+            use std::sync::Arc;
+            let t: Relation = Relation::table().name("t").schema(vec![("a", DataType::integer_interval(0, 10)), ("g", DataType::integer_interval(0, 3))].into_iter().collect::<Schema>()).size(100).build();
+            let relations: Hierarchy<Arc<Relation>> = vec![t].iter().map(|t| (Identifier::from(t.name()), Arc::new(t.clone()))).collect();
+            // (query, values the single output column can take on a conforming instance)
+            let cases: [(&str, &[i64]); 5] = [
+                ("SELECT count(a) AS n FROM t WHERE a > 9", &[0, 1, 100]), ("SELECT count(*) AS n FROM t WHERE a > 9", &[0, 1, 100]), ("SELECT count(DISTINCT a) AS n FROM t WHERE a > 8", &[0, 1, 2]),
+                ("SELECT sum(a) AS s FROM t WHERE a > 9", &[10, 1000]), ("SELECT g, count(a) AS n FROM t WHERE a > 9 GROUP BY g", &[1, 100]),
+            ];
+            let one = |k: usize| -> Option<String> {
+                let (q, values) = cases[k];
+                let rel = Relation::try_from(parse(q).ok()?.with(&relations)).ok()?;
+                let dt = rel.schema().iter().last()?.data_type();
+                for v in values { if !dt.contains(&Value::integer(*v)) && !dt.contains(&Value::float(*v as f64)) { return Some(format!("`{}` can return {} but its column is declared {}", q, v, dt)); } }
+                None
+            };
+            std::panic::set_hook(Box::new(|_| {}));
+            if name == "c07_count_case" { let r = one(j["case"].as_u64().unwrap() as usize); if let Some(m) = &r { println!("  {}", m); } return Ok(r.is_none()); }
+            for k in 0..cases.len() { if let Some(m) = std::panic::catch_unwind(std::panic::AssertUnwindSafe(|| one(k))).unwrap_or(None) { println!("  {}", m); println!("QX-WITNESS {}", serde_json::json!({"case": k})); return Ok(false); } }
+            Ok(true)
+        }
         // C06: the propagated range of an aggregate over a list type must contain the aggregate of every list of the type
         "c06_aggregate_range" | "c06_aggregate_search" => {
             use qrlew::data_type::function as fun;
@@ -809,7 +851,11 @@ fn run(name: &str, j: &J) -> Result<bool, String> {
                 DataType::structured([("a", int())]), DataType::structured([("a", int()), ("b", DataType::Any)]), DataType::structured([("a", int()), ("b", DataType::float_interval(0., 1.))]),
                 DataType::structured([("a", int()), ("b", int())]), DataType::structured([("b", int())]) ] }
             fn struct_values() -> Vec<Value> { vec![Value::structured([("a", Value::integer(5))]), Value::structured([("a", Value::integer(5)), ("b", Value::integer(3))]), Value::structured([("b", Value::integer(3))]), Value::structured([("a", Value::integer(5)), ("b", Value::float(0.5))])] }
-            let families: Vec<(&str, Vec<DataType>, Vec<Value>)> = vec![("list", lists(), list_values()), ("optional", optionals(), optional_values()), ("struct", structs(), struct_values())];
+            // tagged unions: alternatives present on one side only, shared alternatives with different ranges
+            fn unions() -> Vec<DataType> { let int = |a, b| DataType::integer_interval(a, b); let txt = || DataType::text_values(["x".to_string(), "y".to_string()]); vec![
+                DataType::union([("a", int(0, 10))]), DataType::union([("a", int(5, 20)), ("b", txt())]), DataType::union([("b", txt())]), DataType::union([("b", txt()), ("c", int(0, 3)), ("a", int(0, 2))]) ] }
+            fn union_values() -> Vec<Value> { vec![Value::union("a".to_string(), Value::integer(2)), Value::union("a".to_string(), Value::integer(17)), Value::union("b".to_string(), Value::text("x")), Value::union("c".to_string(), Value::integer(3))] }
+            let families: Vec<(&str, Vec<DataType>, Vec<Value>)> = vec![("list", lists(), list_values()), ("optional", optionals(), optional_values()), ("struct", structs(), struct_values()), ("union", unions(), union_values())];
             let want = j["family"].as_str();
             for (fam, types, values) in &families {
                 if let Some(w) = want { if w != *fam { continue; } }
@@ -935,13 +981,17 @@ fn run(name: &str, j: &J) -> Result<bool, String> {
             let mk = |name: &str, last: &str| -> Relation { Relation::table().name(name).schema(vec![("id", DataType::integer_interval(0, 100)), ("a", DataType::integer_interval(0, 10)), (last, DataType::float_interval(0., 1.))].into_iter().collect::<Schema>()).size(100).build() };
             let entries: Vec<(Vec<String>, Arc<Relation>)> = vec![(vec!["t1".to_string()], Arc::new(mk("t1", "b"))), (vec!["t2".to_string()], Arc::new(mk("t2", "c"))), (vec!["s".to_string(), "u1".to_string()], Arc::new(mk("u1", "b")))];
             let relations: Hierarchy<Arc<Relation>> = entries.into_iter().collect();
-            let cases: [(&str, &[&str]); 6] = [
+            let cases: [(&str, &[&str]); 9] = [
                 ("SELECT * FROM t1", &["id", "a", "b"]),
                 ("WITH t1 AS (SELECT a AS z FROM t2) SELECT * FROM t1", &["z"]),
                 ("WITH u1 AS (SELECT a AS z FROM t2) SELECT * FROM u1", &["z"]),
                 ("WITH t1 AS (SELECT c AS z FROM t2) SELECT w.z FROM t1 AS w", &["z"]),
                 ("WITH t2 AS (SELECT a AS z FROM t1) SELECT t1.id, t2.z FROM t1 JOIN t2 ON t1.a = t2.z", &["id", "z"]),
                 ("WITH v AS (SELECT a AS z FROM t2) SELECT * FROM v", &["z"]),
+                // nested scopes: the nearest WITH of a name wins, an outer one is visible where no nearer one exists
+                ("WITH x AS (SELECT a AS z FROM t1) SELECT * FROM (WITH x AS (SELECT c AS y FROM t2) SELECT * FROM x) AS s", &["y"]),
+                ("WITH x AS (SELECT a AS z FROM t1) SELECT * FROM (WITH w AS (SELECT c AS y FROM t2) SELECT * FROM x) AS s", &["z"]),
+                ("WITH x AS (SELECT a AS z FROM t1), y AS (WITH x AS (SELECT c AS q FROM t2) SELECT q FROM x) SELECT x.z, y.q FROM x JOIN y ON x.z = y.q", &["z", "q"]),
             ];
             let one = |k: usize| -> Option<String> {
                 let (q, want) = cases[k];
@@ -1263,7 +1313,8 @@ fn run(name: &str, j: &J) -> Result<bool, String> {
                 "WITH totals AS (SELECT k AS it, SUM(a) AS total FROM t GROUP BY k) SELECT o.k AS item, o.a AS a, w.total AS total FROM totals AS w JOIN t AS o ON w.it = o.k",
                 "SELECT sum(a) AS s FROM (SELECT a FROM t UNION SELECT a FROM u) AS w",
                 "SELECT a FROM t UNION SELECT a FROM p", "SELECT a FROM p UNION SELECT a FROM t", "SELECT a FROM t UNION SELECT a FROM t GROUP BY a", "SELECT a FROM t GROUP BY a UNION SELECT a FROM u",
-                "SELECT k, sum(a) AS s FROM t GROUP BY k UNION SELECT k, a FROM p"];
+                "SELECT k, sum(a) AS s FROM t GROUP BY k UNION SELECT k, a FROM p",
+                "WITH s AS (SELECT k, count(a) AS c FROM t GROUP BY k) SELECT s1.c AS c FROM s AS s1 JOIN s AS s2 ON s1.k = s2.k", "SELECT a FROM t UNION SELECT a FROM t"];
             let one = |q: &str, with_sd: bool| -> Option<String> {
                 let sd = || if with_sd { Some(SyntheticData::new(Hierarchy::from([(vec!["t"], Identifier::from("synthetic_t")), (vec!["u"], Identifier::from("synthetic_u")), (vec!["p"], Identifier::from("synthetic_p"))]))) } else { None };
                 let pu = || PrivacyUnit::from(vec![("t", vec![], "id"), ("u", vec![], "id")]);
@@ -1274,6 +1325,17 @@ fn run(name: &str, j: &J) -> Result<bool, String> {
                 // reference: all consistent derivations with an acceptable root, scored by the library's own Score
                 let reference: Vec<f64> = enumerate(&relation, &with_rules).iter().filter(|d| acceptable(d.attributes().output())).map(|d| d.accept(Score)).collect();
                 let reference_best = reference.iter().cloned().fold(f64::NEG_INFINITY, f64::max);
+                // the score is additive: the weight of the node's label (measured on a childless node with that label) plus the
+                // scores of ALL its children — also when two children are the same sub-relation (a CTE joined with itself)
+                {
+                    use qrlew::rewriting::rewriting_rule::{RewritingRule, Parameters};
+                    let weight = |p: &Property| -> f64 { Arc::new(RelationWithRewritingRule::new(&relation, RewritingRule::new(vec![], *p, Parameters::None), vec![])).accept(Score) };
+                    fn additive<'a>(d: &RelationWithRewritingRule<'a>, weight: &dyn Fn(&Property) -> f64) -> f64 { d.inputs().iter().fold(weight(d.attributes().output()), |s, c| s + additive(c.deref(), weight)) }
+                    for d in enumerate(&relation, &with_rules).iter() {
+                        let (lib, sum) = (d.accept(Score), additive(d.deref(), &weight));
+                        if (lib - sum).abs() > 1e-9 { return Some(format!("`{}` (synthetic data: {}): a derivation with root {} scores {} but the weights of its nodes add up to {}", q, with_sd, d.attributes().output(), lib, sum)); }
+                    }
+                }
                 // what the compiler searches through (the pipeline of the entry point)
                 let eliminated = with_rules.map_rewriting_rules(RewritingRulesEliminator);
                 let cands: Vec<f64> = eliminated.select_rewriting_rules(RewritingRulesSelector).iter().filter(|d| acceptable(d.attributes().output())).map(|d| d.accept(Score)).collect();
